@@ -162,7 +162,44 @@ func (ex *Exec) groupIval(g *GroupFacet) *smt.Term {
 		t = ex.freshInt("prod", big.NewInt(0), nil)
 	}
 	ex.groupIv[k] = t
+	if ex.groupRev == nil {
+		ex.groupRev = map[int]*GroupFacet{}
+	}
+	ex.groupRev[t.ID] = g
 	return t
+}
+
+// productFacet: the group element a plain integer term stands for when it is, syntactically, a
+// product of reduced values modulo m ((a mod m) * (b mod m) * ... mod m, nested or not, with
+// factors that are themselves (v mod m) terms or values of known group elements). Each (v mod m)
+// leaf is the same atom it is when it meets the algebra directly (facetFor), so a product computed
+// on the integer side equals the product computed on the group side. ok = false: not of that form.
+func (ex *Exec) productFacet(t *smt.Term, m *smt.Term, depth int) (*GroupFacet, bool) {
+	if depth > 8 {
+		return nil, false
+	}
+	if v, ok := t.ConstInt(); ok && v.Cmp(big.NewInt(1)) == 0 {
+		return &GroupFacet{Mod: m, Exps: map[string]*smt.Term{}, Reduced: true}, true
+	}
+	if g, ok := ex.groupRev[t.ID]; ok && g.Mod == m {
+		return g, true
+	}
+	if t.Op == smt.OMod && len(t.Args) == 2 && t.Args[1] == m {
+		if in := t.Args[0]; in.Op == smt.OMul {
+			r := &GroupFacet{Mod: m, Exps: map[string]*smt.Term{}, Reduced: true}
+			for _, f := range in.Args {
+				g, ok := ex.productFacet(f, m, depth+1)
+				if !ok {
+					return nil, false
+				}
+				r = addFacets(r, g)
+			}
+			r.Reduced = true
+			return r, true
+		}
+		return ex.facetFor(BigVal{I: t}, m), true
+	}
+	return nil, false
 }
 
 func (ex *Exec) facetEq(a, b *GroupFacet) *smt.Term {
